@@ -33,6 +33,7 @@ ASSUMPTIONS = ['real arithmetic', 'a class without a catalogue instance is repor
 RULE = 'case = operator expression; non-trivial = at least one tag/decorator is True for it; distinct keys'
 BUDGET = {'quick': 300, 'thorough': 1200}
 
+TAGGED_LEAVES = {'vec': ['k', 'D', 'Tz', 'I3', 'Spd'], 'mat': ['k', 'D0', 'D1', 'Tz', 'To'], 'stokes': ['H', 'R', 'Dq', 'k'], 'tree': ['k', 'D']}
 TAGS = ['is_symmetric', 'is_diagonal', 'is_lower_triangular', 'is_upper_triangular', 'is_tridiagonal', 'is_positive_semidefinite', 'is_negative_semidefinite']
 
 
@@ -48,6 +49,15 @@ def cases(tier, seed):
         rnd.shuffle(comp)
         progs += comp[: (50 if tier == 'thorough' else 10)]
         out += [('op', fam, e) for e in progs]
+        # composites of tagged leaves: a tag must not leak to a composite whose matrix lacks the property
+        tagged = TAGGED_LEAVES[fam]
+        for a in tagged:
+            for b in tagged:
+                out.append(('op', fam, ('@', ('leaf', a, 0), ('leaf', b, 1))))
+                out.append(('op', fam, ('+', ('leaf', a, 0), ('leaf', b, 1))))
+                out.append(('op', fam, ('comp', (('leaf', a, 0), ('leaf', b, 1), ('leaf', a, 2)))))
+            out.append(('op', fam, ('kmul', ('leaf', a, 0), 0)))
+            out.append(('op', fam, ('diag', 'list', (('leaf', a, 0), ('leaf', a, 1)))))
     return out
 
 
